@@ -32,7 +32,7 @@ def model_names(tier):
       "ens-rtl", "ens-rtl-kfl-outcalib",
       "stack-lattice", "stack-linear",
       "linear-cat-diamond", "lattice-cat-diamond", "ens-explicit-lincomb-minonly",
-      "ens-avg-bounds-free-lattice",
+      "ens-avg-bounds-free-lattice", "linear-bounds-positive",
   ]
   if tier != "quick":
     base += ["lattice-convex-clamp", "lattice-trust-dominance", "lattice-learned-keypoints",
@@ -84,6 +84,10 @@ def build(name, seed=7):
     lo, hi = -1.0, 2.0
     m = tfl.premade.CalibratedLinear(C.CalibratedLinearConfig(
         feature_configs=feature_configs(tfl), output_min=lo, output_max=hi, output_initialization=[-1.0, 2.0]))
+  elif name == "linear-bounds-positive":
+    lo, hi = 1.0, 2.0  # a range that does not contain 0
+    m = tfl.premade.CalibratedLinear(C.CalibratedLinearConfig(
+        feature_configs=feature_configs(tfl), output_min=lo, output_max=hi, output_initialization=[1.0, 2.0]))
   elif name == "linear-outcalib":
     lo, hi = 0.0, 1.0
     m = tfl.premade.CalibratedLinear(C.CalibratedLinearConfig(
@@ -332,8 +336,10 @@ class System(object):
     msg = invariant_msg(out, self.shape, self.meta)
     if msg and "output_m" in msg:
       for l in self.model.layers:
-        if l.name == "tfl_output_linear_combination" and not np.any(l.kernel.numpy()):
-          msg += " [linear-combination weights all zero]"
+        if (type(l).__name__ == "Linear" and getattr(l, "normalization_order", None)
+            and not np.any(l.kernel.numpy())):
+          msg += " [normalised linear weights all zero]"
+          break
     return msg
 
 
@@ -390,7 +396,7 @@ def work(ctx, name):
 def run(ctx):
   names = alpha.rotate(model_names(ctx.tier), ctx.seed)
   ctx.rule = (
-      "20 (thorough 26) real models: CalibratedLinear {plain, bounds, output calibration}, "
+      "21 (thorough 27) real models: CalibratedLinear {plain, bounds, output calibration}, "
       "CalibratedLattice {hypercube, simplex+bounds, output calibration, kronecker_factored +- bounds}, "
       "CalibratedLatticeEnsemble {explicit avg, explicit linear-combination+bounds, max-only and "
       "min-only linear-combination, random shared calibrators, rtl_layer, rtl+kfl+output calibration}, "
